@@ -191,7 +191,7 @@ void op_exec(const opdef_t* o, const env_t* env, uint64_t seed, int prefill, uns
     if (b->is_zvec) {
       zvec_alloc(&z[i], b->n, b->size, b->sl, m8);
       p[i] = z[i].p;
-      if (b->role == R_IN || b->role == R_INOUT) {
+      if (b->role == R_IN || b->role == R_INOUT || b->role == R_INTMP) {
         for (uint64_t l = 0; l < b->size; l++) fill_buf(&rb, b, zvec_limb(&z[i], l), b->n * 8);
       } else
         zvec_prefill(&z[i], prefill, 77 + (uint64_t)i);
@@ -199,12 +199,12 @@ void op_exec(const opdef_t* o, const env_t* env, uint64_t seed, int prefill, uns
       size_t al = b->align ? b->align : 8;
       size_t mm = al >= 16 ? (m8 / al) * al % 64 : m8;  // the contract promises 8-byte alignment, never less
       p[i] = gb_alloc(&g[i], b->bytes, al, mm, 4096);
-      if (b->role == R_IN || b->role == R_INOUT) fill_buf(&rb, b, p[i], b->bytes);
+      if (b->role == R_IN || b->role == R_INOUT || b->role == R_INTMP) fill_buf(&rb, b, p[i], b->bytes);
       else gb_prefill(&g[i], prefill, 99 + (uint64_t)i);
     }
     size_t nb = b->is_zvec ? z[i].g.n : b->bytes;
     if (b->role == R_IN) res->src_bytes += nb;
-    else if (b->role == R_SCRATCH) res->scratch_bytes += nb;
+    else if (b->role == R_SCRATCH || b->role == R_INTMP) res->scratch_bytes += nb;
     else res->out_bytes += nb;
     if ((monitors & MON_VALGRIND) && (b->role == R_OUT || b->role == R_SCRATCH) && nb) {
       if (b->is_zvec) {  // limbs only: the padding keeps its (defined) canaries
@@ -226,7 +226,7 @@ void op_exec(const opdef_t* o, const env_t* env, uint64_t seed, int prefill, uns
       size_t off = 0;
       for (int i = 0; i < pl.nb; i++) {
         bufspec_t* b = &pl.b[i];
-        if (b->role != R_IN && b->role != R_INOUT) continue;
+        if (b->role != R_IN && b->role != R_INOUT && b->role != R_INTMP) continue;
         if (b->is_zvec) {
           for (uint64_t l = 0; l < b->size; l++) {
             if (pass) memcpy(res->cap_in + off, zvec_limb(&z[i], l), b->n * 8);
@@ -397,7 +397,7 @@ static void plan_idft_x(opplan_t* pl, rng_t* r, const env_t* e, int ntt, int tmp
   pl->u[0] = rs;
   pl->u[1] = as;
   B_RAW(pl, R_OUT, F_NONE, 0, big_bytes(e, ntt, rs), ntt ? 16 : 8);
-  B_RAW(pl, tmp_a ? R_INOUT : R_IN, ntt ? F_U64 : F_DBLINT, 40, dft_bytes(e, ntt, as), ntt ? 32 : 8);
+  B_RAW(pl, tmp_a ? R_INTMP : R_IN, ntt ? F_U64 : F_DBLINT, 40, dft_bytes(e, ntt, as), ntt ? 32 : 8);  // tmp_a: the source is used as scratch
   if (!tmp_a) B_RAW(pl, R_SCRATCH, F_NONE, 0, vec_znx_idft_tmp_bytes(ntt ? e->ntt120 : e->fft64), 8);
   SHAPE(pl, "%s", szc(rs, as));
 }
